@@ -216,7 +216,8 @@ def rand_cfg(rng):
     c["sleeptime"] = opt(0.7, lambda: rng.choice([0, 1, 60000, 2**31 - 1]))
     c["jitter"] = opt(0.7, lambda: rng.randrange(0, 100))
     c["useragent"] = opt(0.6, lambda: txt(60))
-    c["pairs"] = opt(0.6, lambda: [[L(b"d%d.ex" % i), L(rng.choice([b"/a", b"/b/c.js", b"/a"]))] for i in range(rng.randrange(1, 4))])
+    # (URIs are bytes: also non-ASCII ones, well-formed UTF-8 or not)
+    c["pairs"] = opt(0.6, lambda: [[L(b"d%d.ex" % i), L(rng.choice([b"/a", b"/b/c.js", b"/a", b"/caf\xe9", b"/\xc3\xa9t\xc3\xa9", b"/x\xff\x80"]))] for i in range(rng.randrange(1, 4))])
     c["submit"] = opt(0.6, lambda: L(b"/s" + bytes(rng.choice(b"abc.") for _ in range(5))))
     c["verb_get"] = opt(0.5, lambda: L(b"GET"))
     c["verb_post"] = opt(0.5, lambda: L(rng.choice([b"POST", b"GET"])))
@@ -231,8 +232,9 @@ def rand_cfg(rng):
     c["minalloc"] = opt(0.4, lambda: rng.choice([0, 1, 4096, 17500]))
     c["tx86"] = opt(0.4, lambda: {"append": raw(8), "prepend": raw(8)})
     c["tx64"] = opt(0.4, lambda: {"append": raw(8), "prepend": raw(8)})
-    MODS = [b"ntdll", b"ntdll", b"kernel32.dll", b"My Helper.dll", b"a\\b.dll", b"k'32", b"C:\\x\\'y'.dll"]
-    FNS = [b"RtlUserThreadStart", b"RtlUserThreadStart", b"LoadLibraryA", b"Thread Start", b"f\\n", b"it's"]
+    # (... and names that contain the keywords of the execute block themselves)
+    MODS = [b"ntdll", b"ntdll", b"kernel32.dll", b"My Helper.dll", b"a\\b.dll", b"k'32", b"C:\\x\\'y'.dll", b"CreateRemoteThread.dll", b"CreateThread"]
+    FNS = [b"RtlUserThreadStart", b"RtlUserThreadStart", b"LoadLibraryA", b"Thread Start", b"f\\n", b"it's", b"CreateThread", b"CreateRemoteThread", b"NtQueueApcThread-s"]
     c["exec"] = opt(0.5, lambda: [{"code": k, "off": rng.choice([0, 1, 255, 4096]) if k in (6, 7) else 0, "mod": L(rng.choice(MODS)) if k in (6, 7) else [], "fn": L(rng.choice(FNS)) if k in (6, 7) else [], "pad": 0}
                                   for k in [rng.choice([1, 2, 3, 4, 5, 6, 7, 8]) for _ in range(rng.randrange(1, 6))]])
     c["allocator"] = opt(0.4, lambda: rng.choice([0, 1]))
